@@ -611,7 +611,7 @@ func genDistinctSeqs(t *rapid.T, label string, n int, wide bool) []int {
 	}
 	start := rapid.SampledFrom([]int{0, 1, 5, 9, 95, 998}).Draw(t, label+"Start")
 	if wide {
-		start = rapid.SampledFrom([]int{0, 1, 5, 9, 95, 998, -3, 2147483640, 4294967290}).Draw(t, label+"StartWide")
+		start = rapid.SampledFrom([]int{0, 1, 5, 9, 95, 998, -3, 2147483640, 4294967290, 9007199254740990, -9007199254740995, 1 << 62}).Draw(t, label+"StartWide") // ... and around 2^53, where neighbouring integers are one float64
 	}
 	out := make([]int, n)
 	cur := start
@@ -635,6 +635,14 @@ func seq(n int) []int {
 
 var extraColNames = []string{"x_note", "feed_id", "X", "stop_id2", "route_id ", "unknown col", "é"}
 var extraCells = []string{"", "junk", "1", "a,b", "\"", "x\ny", " "}
+
+var nestedTables = [][2]string{
+	{"shapes.txt", "shape_id,shape_pt_lat,shape_pt_lon,shape_pt_sequence\nnested_shape,1.5,2.5,1\nnested_shape,1.6,2.6,2\n"},
+	{"calendar_dates.txt", "service_id,date,exception_type\nnested_service,20240102,1\n"},
+	{"calendar.txt", "service_id,monday,tuesday,wednesday,thursday,friday,saturday,sunday,start_date,end_date\nnested_service,1,1,1,1,1,0,0,20240101,20241231\n"},
+	{"transfers.txt", "from_stop_id,to_stop_id,transfer_type\nnested,nested,0\n"},
+	{"frequencies.txt", "trip_id,start_time,end_time,headway_secs\nnested,00:00:00,01:00:00,60\n"},
+}
 
 // GenPresentation draws a byte-level presentation for the given tables.
 func GenPresentation(t *rapid.T, ts Tables) (Presentation, int) {
@@ -703,6 +711,13 @@ func GenPresentation(t *rapid.T, ts Tables) (Presentation, int) {
 			Name:    rapid.SampledFrom([]string{"feed_info.txt", "fare_attributes.txt", "README", "pathways.txt", "agency.txt.bak", "sub/agency.txt", "Agency.txt"}).Draw(t, "extraMemberName"),
 			Content: rapid.SampledFrom([]string{"", "a,b\n1,2\n", "\xff\xfe\x00", "agency_id\nzzz\n"}).Draw(t, "extraMemberContent"),
 			Pos:     rapid.IntRange(0, present).Draw(t, "extraMemberPos")})
+		if rapid.IntRange(0, 2).Draw(t, "nestedTable") == 0 {
+			// a member in a sub-directory that is named like an optional table (which the archive may well lack at its root) and
+			// holds rows that would be accepted there: it is an unknown extra file all the same
+			nt := rapid.SampledFrom(nestedTables).Draw(t, "nestedTableName")
+			p.ExtraMembers[len(p.ExtraMembers)-1].Name = rapid.SampledFrom([]string{"sub/", "archive/2023/", "__MACOSX/", "feed\\"}).Draw(t, "nestedDir") + nt[0]
+			p.ExtraMembers[len(p.ExtraMembers)-1].Content = nt[1]
+		}
 	}
 	if nExtraM > 0 {
 		dims++
